@@ -97,9 +97,13 @@ func (p *PanicError) Message() any {
 	return p.p.Message()
 }
 
-// Next returns the next panic in the chain.
+// Next returns the next panic in the chain, or nil if there is none.
 func (p *PanicError) Next() *PanicError {
-	return &PanicError{p.p.Next()}
+	next := p.p.Next()
+	if next == nil {
+		return nil
+	}
+	return &PanicError{next}
 }
 
 // Recovered reports whether it has been recovered.
